@@ -59,6 +59,7 @@ class Model:
                 self.modules[name] = ast.parse(src, filename=p)
                 self.modules[name]._path = p
                 self.noise_removed += alpha.strip_noise(self.modules[name])         # pass / assert / print / logging statements
+                alpha.split_tuple_assigns(self.modules[name])                         # one binding per statement
                 # locals renamed since the rules were confirmed are renamed back (an alpha-conversion; see sa/alpha.py); explaining variables
                 # added since are substituted back, after which a second renaming pass may apply
                 tab = self.locals_table.get(name, {})
